@@ -9,6 +9,7 @@ from allmydata.storage.crawler import (
     _dump_json_to_file,
 )
 from allmydata.storage.shares import get_share_file
+from allmydata.util import fileutil
 from allmydata.storage.common import UnknownMutableContainerVersionError, \
      UnknownImmutableContainerVersionError
 from twisted.python import log as twlog
@@ -41,7 +42,7 @@ class _HistorySerializer:
         self._path = _confirm_json_format(FilePath(history_path))
 
         if not self._path.exists():
-            _dump_json_to_file({}, self._path)
+            self.save({})
 
     def load(self):
         """
@@ -57,7 +58,13 @@ class _HistorySerializer:
         """
         Serialize the existing data as JSON.
         """
-        _dump_json_to_file(new_history, self._path)
+        # write a temporary file and move it into place, like the crawler
+        # state file: a process killed while the history is being rewritten
+        # must not leave a truncated file behind, since the next cycle's
+        # load() would then fail for ever.
+        tmpfile = self._path.siblingExtension(".tmp")
+        _dump_json_to_file(new_history, tmpfile)
+        fileutil.move_into_place(tmpfile.path, self._path.path)
         return None
 
 
